@@ -102,7 +102,8 @@ def showMode : Mode → String
   | .fast => "fast"
   | .full => "full"
 
-def loopFuel : Nat := 4000
+/-- enough for 999 chunks (`C04_pack_terminates`: (R+1)² iterations suffice) -/
+def loopFuel : Nat := 1000000
 
 def doRecv (st : DS) (r v k : String) (bud : Budget) (whole : Ref) (lays : List ZipLayout) : DS × String :=
   match hexArg v, parseKind k with
